@@ -1521,6 +1521,26 @@ class Discharger:
             return None
         return None
 
+    def const_param_values(self, body, text):
+        """values a const generic parameter of `body` takes over all calls of `body` in the analysed crates (None when the
+        function is public, is never called, or some call passes something that is not a literal)"""
+        import re as _re2
+        m = _re2.search(r"([A-Z][A-Z0-9_]*)(?:/#\d+)?\)?$", str(text))
+        names = body.j.get("generics") or []
+        if not m or m.group(1) not in names or body.j.get("vis") == "Public":
+            return None
+        i = names.index(m.group(1))
+        vals = set()
+        for u_ in self.prog.units:
+            for x in u_.bodies:
+                for c in x.calls():
+                    if c.rname == body.npath or c.name == body.npath:
+                        g = c.callee.get("resolved_gargs") or c.gargs() or []
+                        if i >= len(g) or not _re2.fullmatch(r"-?\d+", str(g[i])):
+                            return None
+                        vals.add(int(g[i]))
+        return vals or None
+
     def bounded_u8_counter(self, mir, S, s):
         t = s.extra["term"]
         cnt = t["ops"][0]
@@ -1536,7 +1556,16 @@ class Discharger:
                     e = sym.norm(S.operand(a))
                     if not (e[0] == "var" and e[1] == l) or st["rv"]["b"]["k"] != "const":
                         continue
-                    k = int(st["rv"]["b"]["c"]["int"]) - (0 if st["rv"]["op"] == "Gt" else 1)
+                    cb_ = st["rv"]["b"]["c"]
+                    if "int" in cb_:
+                        kv = int(cb_["int"])
+                    else:
+                        # a const generic parameter (`len > MAX`): the largest value any call in the crate instantiates it with
+                        vals = self.const_param_values(s.body, cb_.get("uneval") or "")
+                        if not vals:
+                            continue
+                        kv = max(vals)
+                    k = kv - (0 if st["rv"]["op"] == "Gt" else 1)
                     if k > 253:
                         continue
                     # from the increment, every path that comes back to the increment passes this check block
